@@ -84,7 +84,12 @@ def run_case(case, work, rec):
     m, path = workload.build(case, work)
     digest = common.sha(case["gen"])
     rec.sample({"plotfile": gen.describe(m)})
-    pck = PlotfileCooker(path)
+    try:
+        pck = PlotfileCooker(path)
+    except Exception as e:
+        rec.violation(f"iteration raised {type(e).__name__}: the well-formed plotfile could not be opened, no box is yielded "
+                      f"(format variant {case.get('fmt')})", key=(digest, "open"), witness={"exc": repr(e)[:300]})
+        return
     keys = list(pck.fields.keys())
     nf = m.nfields
     n0 = dict(contracts.COUNTS)
